@@ -145,6 +145,10 @@ class Check(PropertyCheck):
                 tr.take(j)
                 n_acc += 1
                 lines += (["scribble"] if scribble else []) + [f"disp {j} {p} {m}", "fsnap"]
+                if rng.random() < 0.04 and not scribble:
+                    # the episode goes on with a copy (deep copy / pickle round trip) of the dispatcher, its observers and the updater
+                    # with its graph; the original lives on and does something else
+                    lines += [rng.choice(["fork", "fork pickle"]), "fsnap"]
                 if ep < n_eps - 1 and rng.random() < 0.05:
                     break
             if ep < n_eps - 1:
